@@ -33,8 +33,8 @@ ASSUMPTIONS = [
 ]
 
 SETTINGS: Dict[str, Dict[str, Any]] = {
-    "quick": {"cases": 2400, "cli_cases": 48, "budget_s": 50, "minimums": {"decisions": 2000, "nontrivial": 500, "cli_fractions": 30}},
-    "thorough": {"cases": 120000, "cli_cases": 320, "budget_s": 420, "minimums": {"decisions": 100000, "nontrivial": 20000, "cli_fractions": 500}},
+    "quick": {"cases": 2400, "cli_cases": 48, "budget_s": 50, "minimums": {"corpus_runs": 100, "decisions": 2000, "nontrivial": 500, "cli_fractions": 30}},
+    "thorough": {"cases": 120000, "cli_cases": 320, "budget_s": 420, "minimums": {"corpus_runs": 100, "decisions": 100000, "nontrivial": 20000, "cli_fractions": 500}},
 }
 
 def _observe(ctx: Any, ip: Any, family: str, hist: Dict[str, Any], sched: Dict[int, str], lines: Any = None) -> None:
@@ -74,6 +74,9 @@ def _observe(ctx: Any, ip: Any, family: str, hist: Dict[str, Any], sched: Dict[i
 
 
 def run_shard(ctx: Any) -> None:
+    from rpv.checks import corpus_slice
+
+    corpus_slice.run(ctx, PROPERTY_ID)  # the repository's own example inputs, every method and the config's schedule
     from rpv.drive_inproc import InProc
     from rpv.monitors.inproc import LineMonitor
 
@@ -149,6 +152,11 @@ def _cli_slice(ctx: Any) -> None:
 
 
 def replay(ctx: Any, case: Dict[str, Any]) -> None:
+    if case.get("corpus"):
+        from rpv.checks import corpus_slice
+
+        corpus_slice.replay(ctx, PROPERTY_ID, case)
+        return
     from rpv.drive_inproc import InProc
 
     if case.get("cli"):
